@@ -43,6 +43,10 @@ Fixpoint ev (r : ret (T:=T) (St:=St)) (s : evstate) {struct r} : evstate * res (
                     | (s1, Err e) => (s1, Err e)
                     end
   | RRaise e => (s, Err e)
+  | RTry c r1 r2 => match ev r1 s with
+                    | (s1, Ok x) => (s1, Ok x)
+                    | (s1, Err e) => if c e then ev r2 s1 else (s1, Err e)
+                    end
   end.
 
 Variable fault : option nat.
@@ -116,20 +120,49 @@ Definition monotone (f : callT) : Prop := forall s st lim, (snd s <= snd (fst (f
 
 Lemma ev_restores f : restoring f -> forall r s, fst (fst (ev f r s)) = fst s.
 Proof.
-  intros Hf. induction r as [o|h|st' lim'|g r IH|g r1 IH1 r2 IH2|e]; intros s; cbn [ev]; try reflexivity.
+  intros Hf. induction r as [o|h|st' lim'|g r IH|g r1 IH1 r2 IH2|e|c r1 IH1 r2 IH2]; intros s; cbn [ev]; try reflexivity.
   - specialize (Hf s st' lim'). destruct (f s st' lim') as [s' [h|e]]; exact Hf.
   - specialize (IH s). destruct (ev f r s) as [s' [x|e]]; exact IH.
   - specialize (IH1 s). destruct (ev f r1 s) as [s1 [x1|e]]; [|exact IH1].
     specialize (IH2 s1). destruct (ev f r2 s1) as [s2 [x2|e]]; cbn [fst] in *; congruence.
+  - specialize (IH1 s). destruct (ev f r1 s) as [s1 [x1|e]]; [exact IH1|].
+    destruct (c e); [|exact IH1]. rewrite IH2. exact IH1.
 Qed.
 
 Lemma ev_mono f : monotone f -> forall r s, (snd s <= snd (fst (ev f r s)))%nat.
 Proof.
-  intros Hf. induction r as [o|h|st' lim'|g r IH|g r1 IH1 r2 IH2|e]; intros s; cbn [ev]; try (cbn [fst]; lia).
+  intros Hf. induction r as [o|h|st' lim'|g r IH|g r1 IH1 r2 IH2|e|c r1 IH1 r2 IH2]; intros s; cbn [ev]; try (cbn [fst]; lia).
   - specialize (Hf s st' lim'). destruct (f s st' lim') as [s' [h|e]]; exact Hf.
   - specialize (IH s). destruct (ev f r s) as [s' [x|e]]; exact IH.
   - specialize (IH1 s). destruct (ev f r1 s) as [s1 [x1|e]]; [|exact IH1].
     specialize (IH2 s1). destruct (ev f r2 s1) as [s2 [x2|e]]; cbn [fst] in *; lia.
+  - specialize (IH1 s). destruct (ev f r1 s) as [s1 [x1|e]]; [exact IH1|].
+    destruct (c e); [|exact IH1]. specialize (IH2 s1). cbn [fst] in *. lia.
+Qed.
+
+(* ---- try / except inside a callback ---- *)
+
+(* one step of the evaluation of a try term: the handler runs only on a caught exception, from the
+   state the protected term left behind *)
+Lemma call_try_catches f c r1 r2 s :
+  ev f (RTry c r1 r2) s =
+  match ev f r1 s with
+  | (s1, Ok x) => (s1, Ok x)
+  | (s1, Err e) => if c e then ev f r2 s1 else (s1, Err e)
+  end.
+Proof. reflexivity. Qed.
+
+(* a failed protected term leaves nothing behind in the ContextVar: the handler r2 is evaluated from
+   a state whose ContextVar is exactly the one the protected term r1 started with (only the invocation
+   counter has advanced), so whatever the handler calls inherits the enclosing limit, depth and
+   precision *)
+Theorem ev_try_handler_context f : restoring f -> forall c r1 r2 s s1 e,
+  ev f r1 s = (s1, Err e) ->
+  fst s1 = fst s /\ (c e = true -> ev f (RTry c r1 r2) s = ev f r2 s1).
+Proof.
+  intros Hf c r1 r2 s s1 e H. split.
+  - pose proof (ev_restores f Hf r1 s) as R. rewrite H in R. exact R.
+  - intros C. cbn [ev]. rewrite H, C. reflexivity.
 Qed.
 
 Lemma go_restores f fault st l cur tot : forall bs s acc,
@@ -174,6 +207,15 @@ Proof.
   destruct (aggw O ws); exact H.
 Qed.
 
+(* the same for the callback terms evaluated inside [call] (by [call_unfold] these are evaluated by
+   [ev (call ... fuel)]): the handler of a try starts in the context of the enclosing evaluation *)
+Corollary call_try_handler_context fault fuel c r1 r2 s s1 e :
+  ev (call O pad srcs sentinel cb fault fuel) r1 s = (s1, Err e) ->
+  fst s1 = fst s /\
+  (c e = true -> ev (call O pad srcs sentinel cb fault fuel) (RTry c r1 r2) s
+                 = ev (call O pad srcs sentinel cb fault fuel) r2 s1).
+Proof. apply ev_try_handler_context. intros s0 st0 lim0. apply call_restores. Qed.
+
 (* the invocation counter only grows *)
 Theorem call_counter_mono fault fuel s st lim :
   (snd s <= snd (fst (call O pad srcs sentinel cb fault fuel s st lim)))%nat.
@@ -205,7 +247,7 @@ Lemma ev_related fault f f' : related fault f f' -> restoring f -> restoring f' 
   forall r s s', fst s = fst s' -> past fault (snd s) -> snd (ev f r s) = snd (ev f' r s').
 Proof.
   intros Hrel Hr Hr' Hm.
-  induction r as [o|h|st' lim'|g r IH|g r1 IH1 r2 IH2|e]; intros s s' Hs Hp; cbn [ev]; try reflexivity.
+  induction r as [o|h|st' lim'|g r IH|g r1 IH1 r2 IH2|e|c r1 IH1 r2 IH2]; intros s s' Hs Hp; cbn [ev]; try reflexivity.
   - specialize (Hrel s s' st' lim' Hs Hp).
     destruct (f s st' lim') as [s1 [h|e]], (f' s' st' lim') as [s1' [h'|e']]; cbn [snd] in *; congruence.
   - specialize (IH s s' Hs Hp).
@@ -217,6 +259,13 @@ Proof.
     assert (Hs1 : fst s1 = fst s1') by congruence.
     specialize (IH2 s1 s1' Hs1 (past_le _ _ _ Hp M1)).
     destruct (ev f r2 s1) as [s2 [x2|e2]], (ev f' r2 s1') as [s2' [x2'|e2']]; cbn [snd] in *; congruence.
+  - (* both runs raise the same exception in the protected term, hence take the same branch *)
+    pose proof (IH1 s s' Hs Hp) as E1.
+    pose proof (ev_restores f Hr r1 s) as R1. pose proof (ev_restores f' Hr' r1 s') as R1'.
+    pose proof (ev_mono f Hm r1 s) as M1.
+    destruct (ev f r1 s) as [s1 [x1|e1]], (ev f' r1 s') as [s1' [x1'|e1']]; cbn [snd fst] in *; try congruence.
+    injection E1 as <-. destruct (c e1); [|reflexivity].
+    apply IH2; [congruence|exact (past_le _ _ _ Hp M1)].
 Qed.
 
 Lemma go_related fault f f' st l cur tot : related fault f f' -> restoring f -> restoring f' -> monotone f ->
@@ -291,10 +340,26 @@ Qed.
 Definition fires_spec (i : nat) (f : callT) : Prop :=
   forall s st lim, (snd s <= i)%nat -> (i < snd (fst (f s st lim)))%nat -> snd (f s st lim) = Err (UserError 7).
 
-Lemma ev_fires i f : fires_spec i f -> forall r s,
+(* callbacks that never catch: the term contains no RTry.  With an RTry the injected exception can
+   be caught by an enclosing handler, so "the fault fired" no longer implies "the call raised it"
+   (see try_catches_fault_example in Props/C14.v) *)
+Fixpoint try_free (r : ret (T:=T) (St:=St)) : bool :=
+  match r with
+  | ROut _ | RHist _ | RCall _ _ | RRaise _ => true
+  | RUn _ r' => try_free r'
+  | RBin _ r1 r2 => try_free r1 && try_free r2
+  | RTry _ _ _ => false
+  end.
+
+Lemma ev_fires i f : fires_spec i f -> forall r, try_free r = true -> forall s,
   (snd s <= i)%nat -> (i < snd (fst (ev f r s)))%nat -> snd (ev f r s) = Err (UserError 7).
 Proof.
-  intros Hf. induction r as [o|h|st' lim'|g r IH|g r1 IH1 r2 IH2|e]; intros s Hs; cbn [ev]; try (cbn [fst]; lia).
+  intros Hf. induction r as [o|h|st' lim'|g r IH|g r1 IH1 r2 IH2|e|c r1 IH1 r2 IH2]; intros Hfree;
+    cbn [try_free] in Hfree; try discriminate Hfree;
+    try (apply andb_true_iff in Hfree; destruct Hfree as [Hfree1 Hfree2];
+         specialize (IH1 Hfree1); specialize (IH2 Hfree2));
+    try specialize (IH Hfree);
+    intros s Hs; cbn [ev]; try (cbn [fst]; lia).
   - specialize (Hf s st' lim' Hs). destruct (f s st' lim') as [s' [h|e]]; cbn [fst snd] in *; intros H;
       specialize (Hf H); congruence.
   - specialize (IH s Hs). destruct (ev f r s) as [s' [x|e]]; cbn [fst snd] in *; intros H; specialize (IH H); congruence.
@@ -303,14 +368,15 @@ Proof.
     specialize (IH2 s1 L). destruct (ev f r2 s1) as [s2 [x2|e2]]; cbn [fst snd] in *; intros H; specialize (IH2 H); congruence.
 Qed.
 
-Lemma go_fires i f st l cur tot : fires_spec i f -> forall bs s acc,
+Lemma go_fires i f st l cur tot : (forall st rs, try_free (cb st rs) = true) ->
+  fires_spec i f -> forall bs s acc,
   (snd s <= i)%nat -> (i < snd (fst (go f (Some i) st l cur tot bs s acc)))%nat ->
   snd (go f (Some i) st l cur tot bs s acc) = Err (UserError 7).
 Proof.
-  intros Hf. induction bs as [|[rs cnt] bs IH]; intros s acc Hs; cbn [go]; [cbn [fst]; lia|].
+  intros Hfree Hf. induction bs as [|[rs cnt] bs IH]; intros s acc Hs; cbn [go]; [cbn [fst]; lia|].
   unfold branch_eval, fires. destruct (Nat.eqb_spec i (snd s)) as [E|N]; [reflexivity|].
   assert (Hs1 : (Datatypes.S (snd s) <= i)%nat) by lia.
-  pose proof (ev_fires i f Hf (cb st rs) (Some (newctx l cur tot cnt), Datatypes.S (snd s)) Hs1) as He.
+  pose proof (ev_fires i f Hf (cb st rs) (Hfree st rs) (Some (newctx l cur tot cnt), Datatypes.S (snd s)) Hs1) as He.
   destruct (ev f (cb st rs) _) as [s1 [x|e]]; cbn [fst snd] in *.
   - destruct (le_lt_dec (snd s1) i) as [L|L]; [|specialize (He L); discriminate].
     apply IH. exact L.
@@ -319,16 +385,16 @@ Proof.
     + specialize (He L). injection He as ->. intros _. reflexivity.
 Qed.
 
-Theorem call_fault_fires i fuel s st lim :
+Theorem call_fault_fires : (forall st rs, try_free (cb st rs) = true) -> forall i fuel s st lim,
   (snd s <= i)%nat ->
   (i < snd (fst (call O pad srcs sentinel cb (Some i) fuel s st lim)))%nat ->
   snd (call O pad srcs sentinel cb (Some i) fuel s st lim) = Err (UserError 7).
 Proof.
-  revert s st lim. induction fuel as [|fuel IH]; intros s st lim Hs; [cbn [call fst]; lia|]. rewrite call_unfold.
+  intros Hfree i fuel. induction fuel as [|fuel IH]; intros s st lim Hs; [cbn [call fst]; lia|]. rewrite call_unfold.
   destruct (nlimit s lim) as [l|e]; [|cbn [fst]; lia].
   destruct (cut l (cur_of s)); [cbn [fst]; lia|].
   destruct (branches O pad (srcs st)) as [bs|e]; [|cbn [fst]; lia].
-  pose proof (go_fires i _ st l (cur_of s) (srcs_total (srcs st)) IH bs s [] Hs) as H.
+  pose proof (go_fires i _ st l (cur_of s) (srcs_total (srcs st)) Hfree IH bs s [] Hs) as H.
   destruct (go _ _ _ _ _ _ bs s []) as [s' [ws|e]]; cbn [fst snd] in *.
   - destruct (aggw O ws); cbn [fst snd]; intros L; specialize (H L); discriminate.
   - intros L. specialize (H L). injection H as ->. reflexivity.
@@ -342,13 +408,18 @@ Definition unreached_spec (i : nat) (f f' : callT) : Prop :=
 Lemma ev_unreached i f f' : unreached_spec i f f' -> monotone f -> forall r s,
   (snd (fst (ev f r s)) <= i)%nat -> ev f r s = ev f' r s.
 Proof.
-  intros Hf Hm. induction r as [o|h|st' lim'|g r IH|g r1 IH1 r2 IH2|e]; intros s; cbn [ev]; try reflexivity.
+  intros Hf Hm. induction r as [o|h|st' lim'|g r IH|g r1 IH1 r2 IH2|e|c r1 IH1 r2 IH2]; intros s; cbn [ev]; try reflexivity.
   - specialize (Hf s st' lim'). destruct (f s st' lim') as [s' [h|e]]; cbn [fst] in *; intros H; rewrite <- (Hf H); reflexivity.
   - specialize (IH s). destruct (ev f r s) as [s' [x|e]]; cbn [fst] in *; intros H; rewrite <- (IH H); reflexivity.
   - specialize (IH1 s). destruct (ev f r1 s) as [s1 [x1|e1]]; cbn [fst] in *; [|intros H; rewrite <- (IH1 H); reflexivity].
     specialize (IH2 s1). pose proof (ev_mono f Hm r2 s1) as M.
     destruct (ev f r2 s1) as [s2 [x2|e2]]; cbn [fst] in *; intros H;
       rewrite <- IH1 by lia; rewrite <- (IH2 H); reflexivity.
+  - specialize (IH1 s). destruct (ev f r1 s) as [s1 [x1|e1]]; cbn [fst] in *; [intros H; rewrite <- (IH1 H); reflexivity|].
+    destruct (c e1) eqn:C.
+    + specialize (IH2 s1). pose proof (ev_mono f Hm r2 s1) as M.
+      intros H. rewrite <- IH1 by lia. cbv beta iota. rewrite C. exact (IH2 H).
+    + intros H. rewrite <- (IH1 H). cbv beta iota. rewrite C. reflexivity.
 Qed.
 
 Lemma go_unreached i f f' st l cur tot : unreached_spec i f f' -> monotone f -> forall bs s acc,
@@ -382,13 +453,13 @@ Proof.
 Qed.
 
 (* (1)+(2): with a pending fault there are exactly two possibilities *)
-Corollary call_fault_dichotomy i fuel s st lim :
+Corollary call_fault_dichotomy : (forall st rs, try_free (cb st rs) = true) -> forall i fuel s st lim,
   (snd s <= i)%nat ->
   let R := call O pad srcs sentinel cb (Some i) fuel s st lim in
   ((i < snd (fst R))%nat /\ snd R = Err (UserError 7)) \/
   ((snd (fst R) <= i)%nat /\ R = call O pad srcs sentinel cb None fuel s st lim).
 Proof.
-  intros Hs R. destruct (le_lt_dec (snd (fst R)) i) as [L|L].
+  intros Hfree i fuel s st lim Hs R. destruct (le_lt_dec (snd (fst R)) i) as [L|L].
   - right. split; [exact L|]. apply call_fault_unreached. exact L.
   - left. split; [exact L|]. apply call_fault_fires; assumption.
 Qed.
@@ -773,6 +844,9 @@ Qed.
 End FE.
 
 Print Assumptions call_restores.
+Print Assumptions call_try_catches.
+Print Assumptions ev_try_handler_context.
+Print Assumptions call_try_handler_context.
 Print Assumptions call_counter_mono.
 Print Assumptions call_fault_past.
 Print Assumptions later_call_fresh.
